@@ -6,6 +6,7 @@ toolchain go1.23.5
 
 require (
 	github.com/anishathalye/porcupine v1.3.0
+	github.com/iancoleman/orderedmap v0.3.0
 	github.com/iotaledger/hive.go/ads v0.0.0
 	github.com/iotaledger/hive.go/app v0.0.0
 	github.com/iotaledger/hive.go/constraints v0.0.0
@@ -30,7 +31,6 @@ require (
 	github.com/davecgh/go-spew v1.1.1 // indirect
 	github.com/ethereum/go-ethereum v1.13.14 // indirect
 	github.com/holiman/uint256 v1.2.4 // indirect
-	github.com/iancoleman/orderedmap v0.3.0 // indirect
 	github.com/kr/text v0.2.0 // indirect
 	github.com/pmezard/go-difflib v1.0.0 // indirect
 	github.com/pokt-network/smt v0.9.2 // indirect
